@@ -485,6 +485,11 @@ type docFixture struct {
 
 func newNutsDoc(services bool) docFixture {
 	priv, _ := ecdsa.GenerateKey(elliptic.P256(), crand.Reader)
+	return newNutsDocFor(priv, services)
+}
+
+// newNutsDocFor builds the did:nuts document whose identifier derives from the given key (its first verification method).
+func newNutsDocFor(priv *ecdsa.PrivateKey, services bool) docFixture {
 	kidStr, err := didnuts.DIDKIDNamingFunc(priv.Public())
 	if err != nil {
 		panic(err)
